@@ -132,7 +132,12 @@ pub fn noise_stream(rng: &mut Rng, lex: &Lexicon, len: usize) -> Vec<NoiseTok> {
                 };
                 let (a, b) = (pick(rng), pick(rng));
                 let glue = if matches!(lex.code, "de" | "nl" | "it") && rng.chance(2, 3) { "" } else { "-" };
-                (format!("{}{}{}", a, glue, b), WClass::Compound)
+                match rng.below(8) {
+                    // a compound cut at its hyphen: `twenty-` / `-one`
+                    0 => (format!("{}-", a), WClass::Compound),
+                    1 => (format!("-{}", b), WClass::Compound),
+                    _ => (format!("{}{}{}", a, glue, b), WClass::Compound),
+                }
             }
         };
         out.push(NoiseTok { text, class });
@@ -166,7 +171,8 @@ pub fn noise_text(toks: &[NoiseTok]) -> String {
     s
 }
 
-const SALT: [&str; 28] = [
+const SALT: [&str; 35] = [
+    "\u{133}", "\u{132}", "ﬀ", "ǆ", "œ", "Æ", "ẞ",
     "\u{feff}", "\u{200e}", "\u{200f}", "\u{2060}", "\u{180e}", "\u{fffd}",
     "é", "ñ", "ß", "İ", "ǅ", "ﬁ", "e\u{301}", "a\u{308}\u{323}", "日本語", "数字", "😀", "👨‍👩‍👧", "\u{202e}", "\u{0}", "\u{200b}", "١٢٣", "४२", "123", "3", "०", "Ω", "ı",
 ];
